@@ -76,8 +76,16 @@ func Reset() {
 	Failed = nil
 	Reached = nil
 	Diverged = false
+	panicsOnly = false
 	load()
 }
+
+var panicsOnly bool
+
+// PanicsOnly turns the Assert calls of the rest of this run into no-ops: the
+// harness of another property is re-used for its implicit obligations only (no
+// panic, no stall, loops within bounds).
+func PanicsOnly() { panicsOnly = true }
 
 // random mode (VERIFND_RANDOM=<seed>): values are drawn at random instead of
 // read from a vector; used to confirm natively that a marker the solver proved
@@ -198,7 +206,7 @@ func Cut(name string, c bool) { Assume(c) }
 
 // Assert is an obligation.
 func Assert(c bool, name string) {
-	if !c {
+	if !c && !panicsOnly {
 		mu.Lock()
 		Failed = append(Failed, name)
 		mu.Unlock()
